@@ -22,7 +22,8 @@ type gor struct {
 	canTimeout bool
 	timedOut   bool
 	// preempted with a delay: resumes only when no other goroutine can run
-	delayed bool
+	delayed   bool
+	quiescing bool // inside quiesce(): waiting for everybody else to come to rest
 }
 
 type killSignal struct{}
@@ -110,6 +111,11 @@ func (ex *exec) pickNext(self *gor) *gor {
 	var cands, late []*gor
 	for _, g := range ex.gors {
 		if g != self && ex.runnable(g) {
+			if g.quiescing && self.quiescing {
+				// two goroutines waiting for everybody else to come to rest do not
+				// wake each other: the running one finishes its wait first
+				continue
+			}
 			if g.delayed {
 				late = append(late, g)
 			} else {
@@ -197,6 +203,8 @@ func (ex *exec) abortFrom(g *gor, a abort) {
 // (used by vf.Quiesce and at preemption points).
 func (ex *exec) quiesce() {
 	g := ex.cur
+	g.quiescing = true
+	defer func() { g.quiescing = false }()
 	for {
 		next := ex.pickNext(g)
 		if next == nil {
